@@ -18,6 +18,31 @@ Definition push (r : found) (a : atom) : found :=
 Definition orelse (r : found) (k : unit -> found) : found :=
   match r with Some x => Some x | None => k tt end.
 
+(* advanceKeyToRight, iterator.go:261-264 *)
+Definition adv_key (nd : N) (k : bytes) : bytes :=
+  k_appendbit (fst (k_split k nd (k_bitlen k))) nd true.
+
+(* the visit-state machine of one internal node (iterator.go:266-298);
+   [try_lf], [try_l], [try_r] are tryNext (:250-259) on LeafNode / Left / Right *)
+Definition node_step (try_lf try_l try_r : bytes -> found) (nd : N) (npath key : bytes)
+           (st : vstate) : found :=
+  let take_first := (0 <? nd) && (nd <=? k_bitlen key) && cmp_lt key npath in   (* :268 *)
+  let key_not_longer := k_bitlen key <=? nd in                                   (* :269 *)
+  let from_at (key : bytes) : found :=                                           (* :280-293 *)
+    let key := if key_not_longer then k_appendbit key nd false else key in
+    if negb (k_getbit key nd) || take_first
+    then orelse (try_l key) (fun _ => try_r (adv_key nd key))
+    else try_r key in
+  match st with
+  | VBefore =>                                                                   (* :272-279 *)
+      if key_not_longer || take_first
+      then orelse (try_lf key) (fun _ => from_at key)
+      else from_at key
+  | VAt => from_at key
+  | VAtLeft => try_r (adv_key nd key)                                            (* :294-298 *)
+  | VAfter => None
+  end.
+
 (* doNext, iterator.go:228-310 *)
 Fixpoint do_next (t : tree) (d : N) (path key : bytes) (st : vstate) : found :=
   match t with
@@ -26,32 +51,15 @@ Fixpoint do_next (t : tree) (d : N) (path key : bytes) (st : vstate) : found :=
   | Node lbl lf l r =>
       let nd := d + N.of_nat (length lbl) in                            (* :247 newBitDepth *)
       let npath := k_merge path d (pack lbl) (N.of_nat (length lbl)) in (* :248 newPath *)
-      (* tryNext (:250-259) on the three children *)
-      let try_lf (key : bytes) : found :=
-        match lf with
-        | Some (k0, v0) => if cmp_lt k0 key then None else Some ((k0, v0), [mkAtom VAt t d path])
-        | None => None
-        end in
-      let try_l (key : bytes) : found := push (do_next l nd npath key VBefore) (mkAtom VAtLeft t d path) in
-      let try_r (key : bytes) : found := push (do_next r nd npath key VBefore) (mkAtom VAfter t d path) in
-      (* advanceKeyToRight, :261-264 *)
-      let adv (k : bytes) : bytes := k_appendbit (fst (k_split k nd (k_bitlen k))) nd true in
-      let take_first := (0 <? nd) && (nd <=? k_bitlen key) && cmp_lt key npath in   (* :268 *)
-      let key_not_longer := k_bitlen key <=? nd in                                   (* :269 *)
-      let from_at (key : bytes) : found :=                                           (* :280-293 *)
-        let key := if key_not_longer then k_appendbit key nd false else key in
-        if negb (k_getbit key nd) || take_first
-        then orelse (try_l key) (fun _ => try_r (adv key))
-        else try_r key in
-      match st with
-      | VBefore =>                                                                   (* :272-279 *)
-          if key_not_longer || take_first
-          then orelse (try_lf key) (fun _ => from_at key)
-          else from_at key
-      | VAt => from_at key
-      | VAtLeft => try_r (adv key)                                                   (* :294-298 *)
-      | VAfter => None
-      end
+      node_step
+        (fun key => match lf with
+                    | Some (k0, v0) =>
+                        if cmp_lt k0 key then None else Some ((k0, v0), [mkAtom VAt t d path])
+                    | None => None
+                    end)
+        (fun key => push (do_next l nd npath key VBefore) (mkAtom VAtLeft t d path))
+        (fun key => push (do_next r nd npath key VBefore) (mkAtom VAfter t d path))
+        nd npath key st
   end.
 
 (* Seek, iterator.go:182-194 *)
